@@ -445,7 +445,8 @@ def run_one(rng, counters):
         # ---------------- observed alleles (SNV-only diploid data): what the reader reports for a read must be what the read shows
         # (CIGAR-based detection only: with a reference the allele is defined by re-alignment of a window, where a nearby
         # sequencing error can legitimately make the two alleles tie)
-        if opts["ploidy"] == 2 and p.get("kinds") == ["snv"] and not opts.get("regions") and not opts["use_ref"]:
+        # ... unless the reads are error-free: then the window matches one allele exactly and differs from the other)
+        if opts["ploidy"] == 2 and p.get("kinds") == ["snv"] and not opts.get("regions") and (not opts["use_ref"] or p.get("error_rate") == 0.0):
             frag = {}
             for a in got:
                 if a.reference_id >= 0:
